@@ -27,8 +27,10 @@
 (*                   that violates the property; HistoryTrace uses the     *)
 (*                   same operators to explain a deviation of the code.    *)
 (*                                                                         *)
-(* Model = "failsticky" and "leak" are two more implementation-shaped      *)
-(*                   variants: the parser flag survives a parse that FAILS;*)
+(* Model = "failsticky", "leak", "importcache" are more implementation-    *)
+(*                   shaped variants (importcache: a module file parsed    *)
+(*                   for one main program is reused, with that program's   *)
+(*                   prefix, by a later main program): the parser flag survives a parse that FAILS;*)
 (*                   the translation tables of an engine compiled earlier  *)
 (*                   leak into a later compilation for another engine.     *)
 (*                   TLC must find a violating history for each of them in *)
@@ -74,6 +76,7 @@ Inc(p) == p \in HRange(W.incant)
 Attr(p) == CHOOSE a \in HRange(W.attrs) : a.n = p
 Stage(p) == Attr(p).stage
 Eng(p) == Attr(p).eng
+Mods(p) == HRange(Attr(p).mods)
 
 F(p) == <<"F", p>>
 G(p) == <<"G", p>>
@@ -88,6 +91,10 @@ Emit(p, m) ==
   ELSE IF /\ Model = "leak"
           /\ p \in HRange(W.victims)
           /\ OtherEngineBefore(ps, Eng(p))
+  THEN G(p)
+  ELSE IF /\ Model = "importcache"
+          /\ ParsesNow(ps, p, m)
+          /\ ImportedForOther(ps, p, Mods(p))
   THEN G(p) ELSE F(p)
 
 NCompiles == Cardinality({k \in 1..Len(hist) : hist[k].a = "compile"})
@@ -115,7 +122,7 @@ Compile(p, m) ==
          first == IF p \in DOMAIN seen THEN seen[p] ELSE None
      IN /\ out' = [prog |-> p, digest |-> d, first |-> first]
         /\ seen' = IF first = None THEN (p :> d) @@ seen ELSE seen
-  /\ ps' = AfterCompile(Model, ps, p, m, Inc(p), Stage(p), Eng(p))
+  /\ ps' = AfterCompile(Model, ps, p, m, Inc(p), Stage(p), Eng(p), Mods(p))
   /\ hist' = Append(hist, [a |-> "compile", n |-> p, mode |-> m])
   /\ PrintT(<<"H", ToJson([w |-> win, h |-> hist'])>>)
   /\ UNCHANGED win
